@@ -6,7 +6,7 @@ sys.path.insert(0, os.path.join(os.path.dirname(os.path.abspath(__file__)), ".."
 import engine_check  # noqa: E402
 import diff_engine  # noqa: E402
 
-LEAN_MODULES = ["KmipModel.Props.C13"]
+LEAN_MODULES = ["KmipModel.Props.C13"]   # Drivers/WellTyped.lean imports it
 LEANCHECKER = True
 RULE = ("grid: operation x stored object type (8 kinds incl. RSA pair, split key) x lifecycle state x KMIP version x "
         "parameter menu (valid, absent-optional, inapplicable-to-type, unknown / x- attribute name, every attribute "
@@ -253,6 +253,48 @@ def run_grid(ctx, sample):
         return pool.map(engine_check.gen_history, args)
 
 
+def theorem_domain(ctx, histories):
+    """Which of the items sent to the implementation satisfy the hypothesis of the Lean theorem
+    `no_internal_error` (C13.wellTypedB, proved to imply WellTyped)?  Items outside it are listed by class:
+    the classes the property itself excludes (ASSUMPTIONS), a backend that raised a non-KMIP exception, or
+    `other` = explored by the monitor but not covered by the theorem."""
+    import collections
+    import json
+    from gen_engine import dumps
+    lines, where = [], []
+    for hi, (h, outs) in enumerate(histories):
+        for k, j in enumerate(h):
+            if j.get("cmd") == "req":
+                lines.append(dumps(j))
+                where.append((hi, k))
+    out = ctx.run_model("WellTyped", lines)
+    tally = collections.Counter()
+    samples = []
+    for (hi, k), o in zip(where, out):
+        j = histories[hi][0][k]
+        try:
+            wt = json.loads(o)["wt"]
+        except Exception:
+            raise RuntimeError("WellTyped driver: %s on %s" % (o[:200], dumps(j)[:300]))
+        res = histories[hi][1][k].get("results") if isinstance(histories[hi][1][k], dict) else None
+        for n, (it, ok) in enumerate(zip(j["req"]["items"], wt)):
+            if ok:
+                tally["in_theorem_domain"] += 1
+                continue
+            if it["op"] == "query" and not it.get("functions"):
+                tally["excluded:query-without-function"] += 1
+            elif it["op"] == "deriveKey" and not it.get("uids"):
+                tally["excluded:derive-without-base-object"] += 1
+            elif (it.get("crypto") or {}).get("k") == "internal":
+                tally["excluded:backend-raised-non-kmip-exception"] += 1
+            else:
+                tally["other:%s" % it["op"]] += 1
+                if len(samples) < 5:
+                    samples.append({"item": it, "version": j["req"]["version"],
+                                    "result": res[n] if res and n < len(res) else None})
+    return dict(tally), samples
+
+
 def run(ctx):
     sample = 0.35 if ctx.tier == "quick" else 1.0
     grid = run_grid(ctx, sample)
@@ -272,6 +314,9 @@ def run(ctx):
     ctx.coverage["evaluations"] += st.items
     ctx.coverage["distinct_nontrivial"] += len(st.distinct)
     ctx.coverage["grid_divergences"] = len(divs)
+    dom, outside = theorem_domain(ctx, grid)
+    ctx.coverage["theorem_domain"] = dom
+    ctx.coverage["items_outside_theorem_domain_samples"] = outside
     if divs:
         d = divs[0]
         sig = "correspondence:engine-model"
